@@ -150,6 +150,12 @@ static strs family_set(const str &fam, int depth) {
     for (int i = 0; i < depth; i++) { char c = (char)('a' + i); for (int l = 1; l <= (int)(n + 0.5); l++) S.push_back(str((size_t)l, c)); n *= 1.272; }
     char last = (char)('a' + depth - 1);
     S.push_back("#"); S.push_back("#~"); S.push_back("~"); S.push_back(str(1, last) + "~" + str(1, last));
+  } else if (fam == "totals") {
+    // totals(T): a dictionary whose text (strings + terminators) has exactly T bytes: {a, ab, bc^(T-7)} (one string a^(T-1) below 8).
+    // Sweeping T over a contiguous range reaches every residue of the text length modulo the word, block and sampling sizes of the
+    // succinct structures (bitmaps of len+1 / len+2 bits, suffix samples, RRR blocks), which subsets of a tiny universe only hit by chance.
+    if (depth < 8) S.push_back(str((size_t)std::max(1, depth - 1), 'a'));
+    else { S.push_back("a"); S.push_back("ab"); S.push_back("b" + str((size_t)(depth - 7), 'c')); }
   } else { fprintf(stderr, "unknown family %s\n", fam.c_str()); exit(2); }
   std::sort(S.begin(), S.end(), ult); S.erase(std::unique(S.begin(), S.end()), S.end());
   return S;
